@@ -1,16 +1,12 @@
 #!/bin/sh
 # Offline setup: verify the module cache has what the harness needs and warm the build
-# cache by compiling every check binary against /repo's current tree. Nothing is fetched.
+# cache by compiling every check binary against /repo's current tree (with the overlay hooks
+# where a check has them). Nothing is fetched.
 set -e
-cd "$(dirname "$0")/harness"
+cd "$(dirname "$0")"
 export GOFLAGS=-mod=mod GOPROXY=off GOTOOLCHAIN=auto
-go version
-go list -m pgregory.net/rapid github.com/thushan/olla >/dev/null
-mkdir -p ../.build
-for d in checks/*/; do
-  n=$(basename "$d")
-  # checks with hooks are built by the driver with -overlay; here we only warm the cache
-  go test -c -o ../.build/warm-$n.test ./$d >/dev/null 2>../.build/warm-$n.log || echo "note: $n needs the driver's overlay to build (ok)"
-  rm -f ../.build/warm-$n.test
+(cd harness && go version && go list -m pgregory.net/rapid github.com/thushan/olla >/dev/null)
+for id in $(python3 -c "import json;print(' '.join(sorted(json.load(open('checks.json')))))"); do
+  ./check $id --build-only || { echo "setup: build of $id failed"; exit 1; }
 done
 echo "setup ok"
